@@ -442,14 +442,20 @@ fn enc_msg<M: Message>(wp: WP, m: &M) -> Result<Vec<u8>, String> {
 fn dec_app(wp: WP, b: &[u8]) -> Result<(ApplicationException, usize), String> {
     let mut bytes = Bytes::copy_from_slice(b);
     match wp {
+        // (the readers are dropped before the buffer is looked at again: the harness must
+        // keep compiling if a reader grows a Drop impl)
         WP::Binary => {
-            let mut p = TBinaryProtocol::new(&mut bytes, false);
-            let a = ApplicationException::decode(&mut p).map_err(|e| format!("{}", e))?;
+            let a = {
+                let mut p = TBinaryProtocol::new(&mut bytes, false);
+                ApplicationException::decode(&mut p).map_err(|e| format!("{}", e))?
+            };
             Ok((a, b.len() - bytes.len()))
         }
         WP::Compact => {
-            let mut p = TCompactInputProtocol::new(&mut bytes);
-            let a = ApplicationException::decode(&mut p).map_err(|e| format!("{}", e))?;
+            let a = {
+                let mut p = TCompactInputProtocol::new(&mut bytes);
+                ApplicationException::decode(&mut p).map_err(|e| format!("{}", e))?
+            };
             Ok((a, b.len() - bytes.len()))
         }
         _ => {
